@@ -126,6 +126,48 @@ def build():
                 && final(self).backend.updates@ == old(self).backend.updates@.push(final(self).atomic_mem.view@), // [C13]
             r is Err ==> final(self).mappings@ == old(self).mappings@, // [C13]
             r is Err ==> final(self).atomic_mem.view@ == old(self).atomic_mem.view@, // [C13:mem-intact]""")
+    
+    # syntactic frame condition behind [C15:log-base-atomic]: every fallible step of set_log_base precedes the first bitmap
+    # replacement, and the loop that replaces bitmaps contains no fallible step (registered BEFORE the extraction so that it is
+    # still evaluated when the function's shape changes and the loop invariants lose their anchors)
+    slb = u.rw.strip_comments(hnd.fn_body("set_log_base", within=span2))
+    first_rep = slb.find(".replace(")
+    ok_slb = first_rep > 0 and "?" not in slb[first_rep:] and "return" not in slb[first_rep:]
+    if ok_slb:
+        # the innermost `for` enclosing the first replace must start after the last `?`
+        last_q = slb.rfind("?")
+        loop_start = slb.rfind("for ", 0, first_rep)
+        ok_slb = loop_start > last_q
+    u.scan(["C15"], "set_log_base_all_bitmaps_built_before_any_replace", ok_slb,
+           "set_log_base: every fallible step (`?`) comes before the loop that installs the bitmaps; nothing can fail once the first region has been switched")
+    # ---- C15: SET_LOG_BASE (all bitmaps are built before any is installed: a refused request changes nothing)
+    u.extracted_fn(hnd, "set_log_base", within=span2,
+                   sig_rw=[("R10", r'file:\s*File', 'file: FileStub')],
+                   body_rw=[("R6", r'Arc::new\(\s*MmapLogReg::from_file\(file\.as_fd\(\), log\.mmap_offset, log\.mmap_size\)\s*\.map_err\(VhostUserError::ReqHandlerError\)\?,?\s*\)', 'log_from_file(&file, log.mmap_offset, log.mmap_size)?'),
+                            ("R22", r'let mut bitmaps = Vec::new\(\);', 'let refs = mem.region_refs(); let mut bitmaps: Vec<(&RegionRef, InnerBitmapStub)> = Vec::new();'),
+                            ("R21", r'for region in mem\.iter\(\) \{', 'for region in refs.iter() {'),
+                            ("R6", r'<<T as VhostUserBackend>::Bitmap as BitmapReplace>::InnerBitmap::new\(\s*region,\s*Arc::clone\(&logmem\),?\s*\)\s*\.map_err\(VhostUserError::ReqHandlerError\)\?', 'inner_bitmap_new(region, &logmem)?'),
+                            ("R21", r'for \(region, bitmap\) in bitmaps \{', 'for k in 0..bitmaps.len() { let (region, bitmap) = (bitmaps[k].0, &bitmaps[k].1);'),
+                            ("R8", r'\(\*region\)\.bitmap\(\)\.replace\(bitmap\);', 'self.atomic_mem.replace_bitmap(region, bitmap);')],
+                   loops=[dict(kind="for", nth=0, iter="it", text="""            invariant *self == *old(self), mem.regions == self.atomic_mem.view@, refs@.len() == mem.regions.len(),
+                forall|i: int| 0 <= i < refs@.len() ==> (#[trigger] refs@[i]).idx@ == i,
+                bitmaps@.len() == it.index@,
+                forall|j: int| 0 <= j < bitmaps@.len() ==> (#[trigger] bitmaps@[j]).0.idx@ == j && bitmaps@[j].1.for_region@ == j,"""),
+                          dict(kind="for", nth=1, iter="it2", text="""            invariant self.mappings@ == old(self).mappings@, self.backend == old(self).backend,
+                bitmaps@.len() == old(self).atomic_mem.view@.len(), self.atomic_mem.view@.len() == old(self).atomic_mem.view@.len(),
+                forall|j: int| 0 <= j < bitmaps@.len() ==> (#[trigger] bitmaps@[j]).0.idx@ == j && bitmaps@[j].1.for_region@ == j,
+                forall|j: int| 0 <= j < k ==> (#[trigger] self.atomic_mem.view@[j]).logged,
+                forall|j: int| 0 <= j < self.atomic_mem.view@.len() ==> (#[trigger] self.atomic_mem.view@[j]).gpa == old(self).atomic_mem.view@[j].gpa
+                    && self.atomic_mem.view@[j].size == old(self).atomic_mem.view@[j].size && self.atomic_mem.view@[j].file == old(self).atomic_mem.view@[j].file
+                    && self.atomic_mem.view@[j].off == old(self).atomic_mem.view@[j].off,""")],
+                   hints=[(r'bitmaps\.push\(\(region, bitmap\)\);', "assert(*region == refs@[it.index@ as int]);")],
+                   contract="""
+        ensures
+            r is Err ==> final(self).atomic_mem.view@ == old(self).atomic_mem.view@, // [C15:log-base-atomic] a refused SET_LOG_BASE switches no region: the previously accepted log stays in force everywhere
+            r is Ok ==> all_logged(final(self).atomic_mem.view@) && final(self).atomic_mem.view@.len() == old(self).atomic_mem.view@.len(), // [C15] an accepted one installs the log in EVERY current region
+            r is Ok ==> forall|j: int| 0 <= j < final(self).atomic_mem.view@.len() ==> (#[trigger] final(self).atomic_mem.view@[j]).gpa == old(self).atomic_mem.view@[j].gpa
+                && final(self).atomic_mem.view@[j].size == old(self).atomic_mem.view@[j].size, // [C15,C13] the regions themselves are untouched
+            final(self).mappings@ == old(self).mappings@,""")
     u.raw("}")
     u.raw("impl ReqFdHandler {")
     u.extracted_fn(hnd, "set_backend_req_fd", within=span2, sig_rw=[("R8", r'backend:\s*Backend', 'mut backend: BackendProxyStub')], contract="""
